@@ -5,6 +5,8 @@ import (
 	"fmt"
 	"math/big"
 	"time"
+
+	"github.com/bluenviron/mediacommon/v2/pkg/codecs/h264"
 )
 
 // ---- scripts ---------------------------------------------------------------------------------
@@ -186,7 +188,8 @@ func (s *MSeg) DurationNS() int64 {
 type mTrack struct {
 	spec      TrackSpec
 	leading   bool
-	started   bool   // first random access received (video)
+	started   bool // first random access received (video)
+	h264ex    *h264.DTSExtractor
 	next      *MUnit // fMP4 look-ahead
 	nextRA    bool
 	nextParam bool
@@ -367,6 +370,22 @@ func (m *Model) Step(i int, op Op) StepResult {
 			tr.started = true
 		}
 		dts := op.TS
+		if spec.Codec == "h264" && op.Tmpl >= 1 {
+			// reorder family: the decode time is what mediacommon's extractor derives from the
+			// presentation times and picture order counts (harness-owned instance, fed like the
+			// muxer feeds its own: from the first random access unit on)
+			if tr.h264ex == nil {
+				tr.h264ex = &h264.DTSExtractor{}
+				tr.h264ex.Initialize()
+			}
+			d, err := tr.h264ex.Extract(args.Units, args.PTS)
+			if err != nil {
+				res.ExpectError = true
+				res.Reason = "dts extractor: " + err.Error()
+				return res
+			}
+			dts = d
+		}
 		ptsOff := args.PTS - dts
 		if m.Cfg.Variant == VariantMPEGTS {
 			u := MUnit{Track: op.Track, Op: i, DTS: dts, PTSOff: ptsOff, Sync: ra, Parts: args.Units, NTP: args.NTP, Exact90: true}
